@@ -213,6 +213,31 @@ func propC11(c *Ctx, r *Report) {
 	ruleLoopVarAlias(c, r, "C11/loopvar-alias", c.RSync)
 
 	ruleEveryRecordGraded(c, r, e, "C11/every-record-graded")
+	// what is recorded as "previous winners" for the next block is the grader's own carried-forward list
+	r.rule("C11/winners-recorded", 1, "pn_grade records WinnersShortHashes() of the graded block")
+	{
+		igb := c.fn("pegnet.Pegnet.InsertGradeBlock")
+		okk := false
+		n := 0
+		for _, g := range c.family(igb) {
+			for _, ci := range callsOf(g) {
+				if stmtLabel(c, ci) != "INSERT pn_grade" {
+					continue
+				}
+				if nm := shortCallee(ci.Common()); nm != "Exec" && nm != "ExecContext" {
+					continue
+				}
+				n++
+				vals, _ := sqlParamValues(ci.Common())
+				for _, v := range vals {
+					if sliceHas(v, func(x ssa.Value) bool { return isCallTo(x, "WinnersShortHashes") }) {
+						okk = true
+					}
+				}
+			}
+		}
+		r.check(okk && n > 0, "C11/winners-recorded", "InsertGradeBlock", c.pos(igb.Pos()), "a parameter of the pn_grade insert derives from WinnersShortHashes()", "no parameter of the INSERT into pn_grade derives from graded.WinnersShortHashes(): for a block without winners that call carries the previous winners forward; a list rebuilt from Winners() is empty there, and every record of the next block then names the 'wrong' previous winners and is rejected")
+	}
 	// the graders see every record of the block: a failed download is not mistaken for an invalid record
 	r.rule("C11/inputs-complete", 2, "errors of the parallel entry fetch reach SyncBlock")
 	runErrflow(c, computeEffects(c), r, reachOfSelf(c, "node.multiFetch"), "C11/inputs-complete", false)
